@@ -9,7 +9,11 @@ import (
 	"strings"
 	"sync"
 
+	"go4.org/jsonconfig"
 	"perkeep.org/pkg/blob"
+	"perkeep.org/pkg/blobserver"
+	_ "perkeep.org/pkg/blobserver/blobpacked"
+	"perkeep.org/pkg/blobserver/memory"
 	"perkeep.org/pkg/index"
 	"perkeep.org/pkg/sorted"
 	"perkeep.org/pkg/test"
@@ -32,6 +36,8 @@ var ctxbg = context.Background()
 type Env struct {
 	W   *World
 	Src *test.Fetcher
+	// Packed, if non-nil, is the blob source instead of Src (see UsePackedSource).
+	Packed blobserver.Storage
 	KV  sorted.KeyValue
 	Ix  *index.Index
 }
@@ -61,13 +67,61 @@ func (e *Env) Restart() error {
 	if err != nil {
 		return err
 	}
-	ix.InitBlobSource(e.Src)
+	ix.InitBlobSource(e.source())
 	e.Ix = ix
 	return nil
 }
 
+func (e *Env) source() blobserver.FetcherEnumerator {
+	if e.Packed != nil {
+		return e.Packed
+	}
+	return e.Src
+}
+
+type packedLoader struct{ m map[string]blobserver.Storage }
+
+func (ld *packedLoader) FindHandlerByType(string) (string, any, error) {
+	return "", nil, blobserver.ErrHandlerTypeNotFound
+}
+func (ld *packedLoader) AllHandlers() (map[string]string, map[string]any) { return nil, nil }
+func (ld *packedLoader) MyPrefix() string                                   { return "/bs/" }
+func (ld *packedLoader) BaseURL() string                                    { return "http://verif.invalid" }
+func (ld *packedLoader) GetHandlerType(string) string                       { return "" }
+func (ld *packedLoader) GetHandler(p string) (any, error)                   { return ld.GetStorage(p) }
+func (ld *packedLoader) GetStorage(p string) (blobserver.Storage, error) {
+	if s, ok := ld.m[p]; ok {
+		return s, nil
+	}
+	return nil, fmt.Errorf("no storage %q", p)
+}
+
+// UsePackedSource makes the index read from a blobpacked storage (loose and packed blobs in memory
+// stores, meta index in memory) instead of the plain fetcher: the blob source of the default server
+// configuration. To be called before the first Store.
+func (e *Env) UsePackedSource() error {
+	ld := &packedLoader{m: map[string]blobserver.Storage{"/small/": new(memory.Storage), "/large/": new(memory.Storage)}}
+	sto, err := blobserver.CreateStorage("blobpacked", ld, jsonconfig.Obj{
+		"smallBlobs": "/small/", "largeBlobs": "/large/", "metaIndex": map[string]any{"type": "memory"},
+	})
+	if err != nil {
+		return err
+	}
+	e.Packed = sto
+	return e.Restart() // a fresh index over the (still empty) rows, reading from the packed source
+}
+
 // Store puts blob i into storage.
-func (e *Env) Store(i int) { e.Src.AddBlob(e.W.Blobs[i].TB()) }
+func (e *Env) Store(i int) {
+	tb := e.W.Blobs[i].TB()
+	if e.Packed != nil {
+		if _, err := blobserver.Receive(ctxbg, e.Packed, tb.BlobRef(), tb.Reader()); err != nil {
+			panic("vworld: storing into the packed source: " + err.Error())
+		}
+		return
+	}
+	e.Src.AddBlob(tb)
+}
 
 // Deliver hands blob i to Index.ReceiveBlob.
 func (e *Env) Deliver(i int) error {
@@ -96,6 +150,9 @@ func (e *Env) ReleaseSrc() {
 		refs = append(refs, b.Ref)
 	}
 	e.Src.RemoveBlobs(ctxbg, refs)
+	if e.Packed != nil {
+		e.Packed.RemoveBlobs(ctxbg, refs)
+	}
 }
 
 // Row is one index row.
